@@ -11,6 +11,8 @@ NEUTRALS = []
 
 # changes made by sub-agents that were given only the property text (see /verif/seeded/<id>/): each must stay reported
 SEEDED = [
+    {'name': 'seeded change C20-r4b', 'seed': 'C20-r4b', 'expect': '|F1|'},
+    {'name': 'seeded change C20-r4a', 'seed': 'C20-r4a', 'expect': '|ITER|'},
     {'name': 'seeded change C20-r3', 'seed': 'C20-r3', 'expect': '|F1|'},
     {'name': 'seeded change C20-r2', 'seed': 'C20-r2', 'expect': '|F1|'},
     {'name': 'seeded change C20', 'seed': 'C20', 'expect': '|F1|'},
